@@ -165,6 +165,7 @@ def deriv_cases(ctx, rebound, table, nper):
     clib.reb_particle_from_pal.restype = Particle
     D = ctypes.c_double
     cases = []
+    py_bad = []
     for cname, gname, fam in table:
         for k in range(nper):
             G = rng.choice([1.0, 39.47841760435743, rng.uniform(0.5, 2)])
@@ -188,7 +189,20 @@ def deriv_cases(ctx, rebound, table, nper):
             Om, om, f = (rng.uniform(-math.pi, math.pi) for _ in range(3))
             pargs = [prim.m, prim.x, prim.y, prim.z, prim.vx, prim.vy, prim.vz]
             if cname == "reb_particle_from_orbit":
+                if rng.random() < 0.05:
+                    prim.m = rng.choice([1e-308, 0.0, 5e-309, 2e-308])
+                    pargs = [prim.m, prim.x, prim.y, prim.z, prim.vx, prim.vy, prim.vz]
                 out = clib.reb_particle_from_orbit(D(G), prim, D(m), D(a), D(e), D(inc), D(Om), D(om), D(f))
+                # the rejection rules in front of the translated body (pinned verbatim in translate_derivs.py): the model is the
+                # map on the ACCEPTED inputs; on a rejected input the library must return reb_particle_nan()
+                rejected = (a == 0.) or (e == 1.) or (e < 0.) or (e > 1. and a > 0.) or (not (e > 1.) and a < 0.) \
+                    or (e * math.cos(f) < -1.) or (prim.m <= 1e-308)
+                if rejected:
+                    got = [getattr(out, c) for c in COMPS7]
+                    if not all(x != x for x in got):
+                        py_bad.append({"fn": cname, "rejected_but_not_nan": got, "a": a, "e": e, "f": f, "primary_m": prim.m})
+                    ctx.case(key=(cname, "rejected", k))
+                    continue
                 ins = [G, m] + pargs + [a, e, inc, Om, om, f, math.cos(Om), math.sin(Om), math.cos(om), math.sin(om),
                                          math.cos(f), math.sin(f), math.cos(inc), math.sin(inc)]
             elif cname == "reb_particle_from_pal":
@@ -218,8 +232,12 @@ def deriv_cases(ctx, rebound, table, nper):
                                                 math.sin(lam.value + p.value), math.cos(lam.value + p.value)]
             exp = [getattr(out, c) for c in COMPS7]
             term = "(p7l (%s FNum %s))" % (gname, " ".join(vlib.fhex(x) for x in ins))
-            cases.append((cname, term, exp, {"fn": cname, "e": e, "inc": inc}))
+            cases.append((cname, term, exp, {"fn": cname, "G": G, "m": m, "a": a, "e": e, "inc": inc, "Omega": Om, "omega": om, "f": f,
+                                             "primary": pargs}))
             ctx.case(key=(cname, k), sample=None)
+    if py_bad:
+        ctx.obligation("correspondence:C16 reb_particle_from_orbit returns the NaN particle on every input its pinned rejection rules reject",
+                       False, str(py_bad[:4]))
     return cases
 
 
@@ -571,7 +589,7 @@ def run(ctx):
     badfns = sorted({dc[b][0] for b in bad2})
     ctx.obligation("correspondence:C16 %d translated constructors (binary64, libm sin/cos and the library's element conversion as "
                    "inputs) == exported C functions, bit-for-bit on %d cases" % (len(table), len(dc)), ok2 and not bad2,
-                   "mismatching functions: %s" % badfns[:12])
+                   "mismatching functions: %s ; first cases (inputs): %s" % (badfns[:12], [dc[b][3] for b in bad2[:3]]))
     # ---- correspondence 3: reb_simulation_rescale_var, branch for branch
     rc = rescale_cases(ctx, rebound, ctx.scale(180, 2400))
     ok3, bad3 = run_corr(ctx, "rescale", rc, HEADER)
